@@ -39,7 +39,7 @@ GATES = {
 
 
 def BOUNDS(tier):
-    n = 4 if tier == "quick" else 6
+    n = 4 if tier == "quick" else 5
     return ("LANG: all byte strings of every length (regular-language inclusion, both directions, 5 gates); if z3 answers unknown the query "
             "is repeated with |s| <= 64 and that bound is reported.  SITE: every byte string of length <= %d as Content-Length value, "
             "chunk-size line, chunk extension, header line, method, request-target and version, through the real parser / receiver." % n)
@@ -202,7 +202,7 @@ SITE = {
 
 def jobs(tier):
     js = [dict(name="LANG:%s" % g, custom=True, gate=g) for g in GATES]
-    nmax = 4 if tier == "quick" else 6
+    nmax = 4 if tier == "quick" else 5
     for site in SITE:
         top = nmax
         if site == "version":
